@@ -105,6 +105,27 @@ LitValue(l) == [mant |-> l.ip * (IF FracDigits(l.frac) = 2 THEN 100 ELSE IF Frac
 \* int literal unless it has a fraction or an exponent; a multiplier keeps an integral value an int
 LitKind(l) == IF l.frac = "none" /\ l.exp = "none" THEN "int" ELSE "float"
 
+\* ---------------------------------------------------------------- strings and bytes
+\* Comparison operators on strings and bytes: both are compared as byte sequences (for strings: their
+\* UTF-8 encoding); a string and a bytes value do not compare.  Values are sequences of byte values.
+ByteSeqs == << <<>>, <<97>>, <<97, 98>>, <<98>>, <<195, 169>>, <<239, 191, 189>>, <<240, 159, 152, 128>>,
+               <<254>>, <<255>>, <<255, 97>>, <<192, 128>> >>
+ValidUTF8(i) == i <= 7                      \* the first seven are valid UTF-8 (may be strings as well as bytes)
+RECURSIVE LexLess(_, _, _)
+LexLess(x, y, i) ==
+  IF i > Len(y) THEN FALSE
+  ELSE IF i > Len(x) THEN TRUE
+  ELSE IF x[i] < y[i] THEN TRUE
+  ELSE IF x[i] > y[i] THEN FALSE
+  ELSE LexLess(x, y, i + 1)
+StrVal(k, i) == [k |-> k, n |-> i, bytes |-> ByteSeqs[i]]          \* k: "string" | "bytes", n: index into ByteSeqs
+StrVals == {StrVal("bytes", i) : i \in 1..Len(ByteSeqs)} \cup {StrVal("string", i) : i \in {j \in 1..Len(ByteSeqs) : ValidUTF8(j)}}
+StrCmp(o, x, y) ==
+  LET lt == LexLess(ByteSeqs[x.n], ByteSeqs[y.n], 1)
+      gt == LexLess(ByteSeqs[y.n], ByteSeqs[x.n], 1)
+      eq == ~lt /\ ~gt
+  IN CASE o = "<" -> lt [] o = "<=" -> lt \/ eq [] o = ">" -> gt [] o = ">=" -> gt \/ eq [] o = "==" -> eq [] o = "!=" -> ~eq
+
 VARIABLES op, a, b, kind, err, res
 vars == <<op, a, b, kind, err, res>>
 Zero == Num("int", 0)
@@ -121,6 +142,12 @@ Init ==
     [] Part = "shared" ->
          /\ op \in [1..3 -> {"div", "mod", "quo", "rem"}] /\ a \in {Num("int", i) : i \in -1..1} /\ b \in {Num("int", j) : j \in {-7, -2, 3, 7}}
          /\ kind = "int" /\ err = FALSE /\ res = <<0, 1>>
+    [] Part = "strcmp" ->
+         /\ op \in {"<", "<=", ">", ">=", "==", "!="} /\ a \in StrVals /\ b \in StrVals
+         /\ kind = "bool"
+         \* a string and a bytes value: == and != answer false / true, the ordering operators are an error
+         /\ err = (a.k # b.k /\ op \notin {"==", "!="})
+         /\ res = IF a.k # b.k THEN <<IF op = "!=" THEN 1 ELSE 0, 1>> ELSE <<IF StrCmp(op, a, b) THEN 1 ELSE 0, 1>>
     [] Part = "literal" ->
          /\ op = "lit" /\ a \in {l \in Lit : LitOK(l)} /\ b = Zero
          /\ kind = LitKind(a) /\ err = FALSE /\ res = LitValue(a)
